@@ -56,6 +56,9 @@ type c20Case struct {
 	Screen bool      `json:"screen,omitempty"`
 	Win    string     `json:"win,omitempty"`    // --preview-window of the session without the scroll part (default right,50%)
 	Scroll *c20Scroll `json:"scroll,omitempty"` // scroll stream: two-field items, scroll offset spec, numbered output
+	Tail   int        `json:"tail,omitempty"`   // tail stream: --tail N on a streaming input (stdin is a pipe that stays open); steps feed:<m> append m lines
+	Track  bool       `json:"track,omitempty"`  // tail stream: --track
+	Init   int        `json:"init,omitempty"`   // tail stream: lines on the input when the session starts
 }
 
 // the scroll offset spec of the session: +[{2}][+Add|-Add][-/Denom] and ~Headers
@@ -233,6 +236,9 @@ type c20Result struct {
 	ShownChecked bool
 	PartChecked  int
 	WinCycles    int
+	NoLineChecked int
+	Fed           int
+	SelTrimmed    int
 }
 
 var c20ScriptOnce sync.Once
@@ -515,9 +521,17 @@ func c20Run(c *Ctx, cs c20Case) (res c20Result) {
 	}
 	initHidden := c20WinHidden(false, false, "cpw:"+win)
 	const cols, rows = 100, 24
-	s, err := StartSession(c, SessionOpts{
-		Args:  []string{"--multi", "--no-sort", "--preview", tm.cmd(cs.Kind), "--preview-window", win},
-		Lines: items, Cols: cols, Rows: rows, Env: []string{marker}})
+	sargs := []string{"--multi", "--no-sort", "--preview", tm.cmd(cs.Kind), "--preview-window", win}
+	fed := 0 // tail stream: lines written to the input so far (line k is "t<k>", its index is k)
+	if cs.Tail > 0 {
+		sargs = append(sargs, "--tail", strconv.Itoa(cs.Tail))
+		if cs.Track {
+			sargs = append(sargs, "--track")
+		}
+		items = c20TailLines(0, cs.Init)
+		fed = cs.Init
+	}
+	s, err := StartSession(c, SessionOpts{Args: sargs, Lines: items, Cols: cols, Rows: rows, Env: []string{marker}, StdinPipe: cs.Tail > 0})
 	if err != nil {
 		res.Err = err.Error()
 		return
@@ -529,6 +543,9 @@ func c20Run(c *Ctx, cs c20Case) (res c20Result) {
 	add := func(f c20Finding) { res.Findings = append(res.Findings, f) }
 	// the list is read asynchronously: wait until it is complete and the cursor is on the first line
 	st, ok := s.WaitFor(func(g *FzfState) bool {
+		if cs.Tail > 0 { // the input stays open: the lines fed so far have arrived (the last one is in the list)
+			return g.Current != nil && c20HasIndex(g, fed-1)
+		}
 		return !g.Reading && g.TotalCount == len(items) && g.MatchCount == len(items) && g.Current != nil
 	}, 10*time.Second)
 	if !ok || st == nil {
@@ -542,7 +559,7 @@ func c20Run(c *Ctx, cs c20Case) (res c20Result) {
 	}
 	labels = append(labels, c20Diff(c20UI{Focus: -1}, ui)...)
 	visible := !initHidden
-	predicted := true
+	predicted := cs.Tail == 0 || cs.Init <= cs.Tail // more initial lines than the tail keeps: the list was trimmed while loading
 	vt := newVT(cols, rows)
 	// scroll stream: the window shows the part of the last command's output its request asked for (eventually; the
 	// command needs its pauses to produce the output).  Returns nil or the finding.
@@ -660,6 +677,113 @@ func c20Run(c *Ctx, cs c20Case) (res c20Result) {
 		}
 		return nil
 	}
+	// A state no command belongs to (no line under the cursor, template without {q}, no selection for {+}): the last
+	// command is superseded by "no preview": eventually (10 s) nothing of the session's preview commands is alive and the
+	// preview window shows nothing (every row of it is blank), and it stays so for 250 ms.  Spec: no_command_state_ok.
+	// classifier of known finding c20-shown-again-without-line: the window was brought back by toggle-preview /
+	// show-preview in a state no command belongs to, and no state with a command has been seen since
+	reshownNoLine := false
+	noLineFailed := false
+	noLineCheck := func(where string) []c20Finding {
+		var out []c20Finding
+		var rowsText []string
+		var al []int
+		var starts []c20Start
+		var r Val
+		okAt := time.Time{}
+		dl := time.Now().Add(10 * time.Second)
+		for {
+			if g, err := s.Get(); err == nil {
+				nu := c20UIOf(g)
+				if !nu.equal(ui) {
+					labels = append(labels, c20Diff(ui, nu)...)
+					ui = nu
+				}
+			}
+			if predictedOK(ui, tm) {
+				return nil // the state has changed under us (input arrived): the other checks apply
+			}
+			starts = c20ReadLog(s)
+			al = c20AliveList(starts, marker)
+			vt.Sync(s)
+			rowsText = c20PaneText(vt)
+			seen := []Val{}
+			for i, st := range starts {
+				a := false
+				for _, j := range al {
+					a = a || i == j
+				}
+				seen = append(seen, L(st.args(), B(a), L()))
+			}
+			r = c.Model.Call(2008, L(tm.val(), ui.val(), L(seen...), I(len(rowsText))))
+			good := r.IsList && len(r.L) == 4 && r.L[3].I == 1
+			if good {
+				if okAt.IsZero() {
+					okAt = time.Now()
+				} else if time.Since(okAt) >= 250*time.Millisecond {
+					break
+				}
+			} else {
+				okAt = time.Time{}
+			}
+			if time.Now().After(dl) {
+				break
+			}
+			time.Sleep(20 * time.Millisecond)
+		}
+		res.NoLineChecked++
+		c.Rep.mu.Lock()
+		c.Rep.SpecChecks++
+		c.Rep.mu.Unlock()
+		if !r.IsList || len(r.L) != 4 {
+			return []c20Finding{{Kind: "corr", Name: "corr:C20.model_answer", Impl: "n/a", Expect: r.String()}}
+		}
+		if !okAt.IsZero() {
+			return nil
+		}
+		if r.L[0].I == 1 {
+			return nil // raced with a state change
+		}
+		if r.L[2].I != 1 {
+			out = append(out, c20Finding{Kind: "spec", Name: "blank_when_no_line", Liveness: true,
+				Impl:   fmt.Sprintf("%s: no line under the cursor (ui %+v), yet the preview window shows %d rows of text: %q", where, ui, len(rowsText), c20Head(rowsText, 4)),
+				Expect: "no preview command belongs to this state: the window shows nothing"})
+		}
+		if r.L[1].I != 1 {
+			out = append(out, c20Finding{Kind: "spec", Name: "superseded_terminated", Liveness: true,
+				Impl:   fmt.Sprint(where, ": no line under the cursor, alive 10 s later: ", al, " of ", starts),
+				Expect: "the command of the earlier state is superseded and terminated"})
+		}
+		if reshownNoLine {
+			for i := range out {
+				out[i].Known = "c20-shown-again-without-line"
+			}
+		}
+		return out
+	}
+	// nomatch stream: give the command of the current state the time to produce its output and fzf the time to draw it
+	// (not a check: best effort, bounded), so that the next step finds a window that is full of it
+	outputSettled := func() {
+		dl := time.Now().Add(3 * time.Second)
+		stable := 0
+		prev := ""
+		for time.Now().Before(dl) {
+			starts := c20ReadLog(s)
+			vt.Sync(s)
+			cur := strings.Join(c20PaneText(vt), "|")
+			ended := len(starts) > 0 && (starts[len(starts)-1].Ended || !c20Alive(starts[len(starts)-1], marker))
+			if cur == prev && cur != "" && (ended || time.Until(dl) < 2200*time.Millisecond) {
+				stable++
+				if stable >= 4 {
+					return
+				}
+			} else {
+				stable = 0
+			}
+			prev = cur
+			time.Sleep(30 * time.Millisecond)
+		}
+	}
 	safety := func() {
 		starts := c20ReadLog(s)
 		al := c20AliveList(starts, marker)
@@ -696,6 +820,7 @@ func c20Run(c *Ctx, cs c20Case) (res c20Result) {
 	var lastActionAt time.Time
 	checkpointFailed := false
 	for _, stp := range cs.Steps {
+		wasVisible := visible
 		if s.Exited() {
 			break
 		}
@@ -704,13 +829,31 @@ func c20Run(c *Ctx, cs c20Case) (res c20Result) {
 		}
 		post, direct := c20ActionString(stp.A, cs.Kind, &nextID, &tm)
 		if len(stp.B) == 0 {
-			if err := s.PostSync(post); err != nil {
+			feedN := 0
+			if strings.HasPrefix(stp.A, "feed:") && cs.Tail > 0 {
+				// new input arrives (not a user action: the list, and with --tail the selection, change under the user)
+				feedN, _ = strconv.Atoi(stp.A[5:])
+				if feedN < 1 {
+					feedN = 1
+				}
+				if err := s.Feed([]byte(strings.Join(c20TailLines(fed, feedN), "\n") + "\n")); err != nil {
+					res.Err = "feed: " + err.Error()
+					return
+				}
+				fed += feedN
+				res.Fed += feedN
+			} else if err := s.PostSync(post); err != nil {
 				res.Err = "post " + post + ": " + err.Error()
 				return
 			}
 			lastActionAt = time.Now()
 			var g *FzfState
-			if strings.HasPrefix(stp.A, "put:") || stp.A == "bs" {
+			if feedN > 0 {
+				g, _ = s.WaitFor(func(g *FzfState) bool { return c20HasIndex(g, fed-1) }, 5*time.Second)
+				if g == nil {
+					g, _ = s.Get()
+				}
+			} else if strings.HasPrefix(stp.A, "put:") || stp.A == "bs" {
 				want := ui.Query
 				if stp.A == "bs" {
 					if len(want) > 0 {
@@ -729,6 +872,20 @@ func c20Run(c *Ctx, cs c20Case) (res c20Result) {
 			}
 			nu := c20UIOf(g)
 			labels = append(labels, c20Diff(ui, nu)...)
+			if feedN > 0 {
+				// new input that trims the list gives the list a new revision, and a new revision makes the render loop ask
+				// for the preview of the (new) current state again even when nothing the command depends on has changed
+				// (t.version++ in UpdateList): for the model one more request for the current state (label refresh; a request
+				// that is never started is allowed: the started commands are a subsequence of the requests).  Several lines
+				// may arrive in several batches with states in between that GET / never showed: no trace validation then.
+				labels = append(labels, L(I(4)))
+				if feedN > 1 {
+					predicted = false
+				}
+				if fmt.Sprint(ui.Sel) != fmt.Sprint(nu.Sel) {
+					res.SelTrimmed++
+				}
+			}
 			ui = nu
 			switch direct {
 			case 3:
@@ -798,6 +955,11 @@ func c20Run(c *Ctx, cs c20Case) (res c20Result) {
 			st = g
 		}
 		safety()
+		if predictedOK(ui, tm) {
+			reshownNoLine = false
+		} else if (direct == 5 || direct == 6) && !wasVisible && visible && len(stp.B) == 0 {
+			reshownNoLine = true
+		}
 		if stp.C && visible && predictedOK(ui, tm) {
 			// checkpoint (liveness): the command for the state reached now gets started
 			dl := time.Now().Add(10 * time.Second)
@@ -840,6 +1002,18 @@ func c20Run(c *Ctx, cs c20Case) (res c20Result) {
 						break
 					}
 				}
+				if cs.Stream == "nomatch" {
+					outputSettled()
+				}
+			}
+		} else if stp.C && visible && !predictedOK(ui, tm) {
+			// checkpoint in a state no command belongs to (no line under the cursor, nothing else to substitute)
+			if fs := noLineCheck("checkpoint after step " + stp.A); len(fs) > 0 {
+				for _, f := range fs {
+					add(f)
+				}
+				noLineFailed = true // already waited 10 s for this very state
+				break
 			}
 		}
 	}
@@ -946,6 +1120,12 @@ func c20Run(c *Ctx, cs c20Case) (res c20Result) {
 		}
 		if visible && cu && !noStale {
 			add(c20Finding{Kind: "spec", Name: "superseded_get_cancel", Impl: fmt.Sprint("alive at quiescence: ", al, " of ", starts), Expect: "only the last started command may be alive"})
+		}
+		// ---- no line under the cursor and nothing else to substitute: no command belongs to the state ----
+		if visible && unforced && !noLineFailed {
+			for _, f := range noLineCheck("at quiescence") {
+				add(f)
+			}
 		}
 		// ---- the part of the output the window shows (scroll stream) ----
 		if visible && cu && !unforced {
@@ -1161,6 +1341,12 @@ func c20Check(c *Ctx, cs c20Case) {
 	}
 	rep.CountN("window_part_checked", res.PartChecked)
 	rep.CountN("window_hidden_and_back_by_cpw", res.WinCycles)
+	rep.CountN("no_line_state_checked", res.NoLineChecked)
+	rep.CountN("input_lines_fed_at_run_time", res.Fed)
+	rep.CountN("selection_trimmed_by_new_input", res.SelTrimmed)
+	if cs.Tail > 0 {
+		rep.Count(fmt.Sprintf("tail=%d track=%v", cs.Tail, cs.Track))
+	}
 	if cs.Win != "" {
 		rep.Count("win=" + cs.Win)
 	}
@@ -1463,7 +1649,7 @@ func c20SelInPlace(r *RNG, i int) c20Case {
 }
 
 func runC20(c *Ctx) {
-	c.Rep.Rule = "pty sessions with a logging preview command (instant / 50 ms / 6 s / never ending, silent or printing; templates with and without {q} and {+n}); random histories of up/down/toggle/typing/backspace/refresh-preview/change-preview/toggle-preview with pauses 0-80 ms and back-to-back groups; dedicated streams: two moves 0.3-1 ms apart, session end with a live / just superseded preview, selection toggled off/on without moving the cursor under a {+n} template, the window hidden (change-preview-window(hidden) / toggle-preview / hide-preview / hidden from the start) and brought back (change-preview-window with a layout / toggle-preview / show-preview) with moves, selections and typing in between, a scroll offset (+{2}-/2, +{2}-5, ~3,+{2}+3-/2, +N ...) with numbered output arriving in chunks separated by pauses of 0.35-0.6 s (window content read off an interpreted screen), never-ending output shorter than the requested offset (known finding), commands whose output ends before they do (kinds eof_<lines>_<pre>_<post>: print, close stdout/stderr, run on for ever or for 0.2-6 s) superseded long after / around / before the end of their output, with the window hidden and shown, with change-preview, and with the session ending while they live (no action at all, after quiescence, 0.2-1.2 ms or 50-400 ms after a superseding move), one batched action list; non-trivial = at least 3 commands started and 4 model labels (dedicated streams always); distinct by JSON of the case"
+	c.Rep.Rule = "pty sessions with a logging preview command (instant / 50 ms / 6 s / never ending, silent or printing; templates with and without {q} and {+n}); random histories of up/down/toggle/typing/backspace/refresh-preview/change-preview/toggle-preview with pauses 0-80 ms and back-to-back groups; dedicated streams: two moves 0.3-1 ms apart, session end with a live / just superseded preview, selection toggled off/on without moving the cursor under a {+n} template, the window hidden (change-preview-window(hidden) / toggle-preview / hide-preview / hidden from the start) and brought back (change-preview-window with a layout / toggle-preview / show-preview) with moves, selections and typing in between, a scroll offset (+{2}-/2, +{2}-5, ~3,+{2}+3-/2, +N ...) with numbered output arriving in chunks separated by pauses of 0.35-0.6 s (window content read off an interpreted screen), never-ending output shorter than the requested offset (known finding), commands whose output ends before they do (kinds eof_<lines>_<pre>_<post>: print, close stdout/stderr, run on for ever or for 0.2-6 s) superseded long after / around / before the end of their output, with the window hidden and shown, with change-preview, and with the session ending while they live (no action at all, after quiescence, 0.2-1.2 ms or 50-400 ms after a superseding move), states with no line under the cursor (the query stops matching: put:z) under window options with and without follow / wrap at every position and outputs shorter / as tall as / taller than the window, still growing or ended, with the way back (backspace) and the window hidden and shown meanwhile (stream nomatch: the window must be blank and nothing alive), streaming input with --tail N (3-8) with and without --track where lines fed at run time (steps feed:<m>) trim old lines off the list and off the selection (stream tail), one batched action list; non-trivial = at least 3 commands started and 4 model labels (dedicated streams always); distinct by JSON of the case"
 	if c.Replay != "" {
 		var cs c20Case
 		b, err := os.ReadFile(c.Replay)
@@ -1544,6 +1730,15 @@ func runC20(c *Ctx) {
 	for i, n := 0, c.N(6, 36); i < n; i++ {
 		cases = append(cases, c20EofExitCase(r, i))
 	}
+	// states with no line under the cursor (the query matches nothing): window options with and without follow / wrap,
+	// outputs shorter and taller than the window
+	for i, n := 0, c.N(12, 90); i < n; i++ {
+		cases = append(cases, c20NoMatchCase(r, i))
+	}
+	// streaming input with --tail: the list and the selection change under the user
+	for i, n := 0, c.N(10, 80); i < n; i++ {
+		cases = append(cases, c20TailCase(r, i))
+	}
 	// one batched action list (known: c20-batched-refresh)
 	cases = append(cases, c20Case{Stream: "batch", Kind: "instant", Tmpl: 0, Batch: "up+refresh-preview+down", Exit: "abort", ExitUs: -1,
 		Steps: []c20Step{{A: "up", P: 50}}})
@@ -1594,6 +1789,14 @@ func runC20(c *Ctx) {
 	s2, _, _, ok2 := flags(e2)
 	if !(ok1 && ok2 && s1 && !q1 && !b1 && !s2) {
 		c.Rep.Disagreement(Disagreement{Kind: "corr", Name: "corr:C20.finish_at_eof_witness", Input: "render;take;spawn;output;close_output;display;move;render", Impl: e2.String(), Expect: e1.String()})
+	}
+	// regression witness (window machine, op 2009): a window of 2 rows that follows the output, a command that printed 3
+	// lines, then the blank result of a state without a line: under a new version (the tree) no row holds text; under the
+	// version that is on the screen (version advanced only when a command is started) the second row keeps its line
+	wt := c.Model.Call(2009, L(I(2), B(true), L(L(I(1), I(3), I(0)), L(I(2), I(0), I(0)))))
+	ws := c.Model.Call(2009, L(I(2), B(true), L(L(I(1), I(3), I(0)), L(I(1), I(0), I(0)))))
+	if !(wt.IsList && len(wt.L) == 3 && wt.L[0].I == 0) || !(ws.IsList && len(ws.L) == 3 && ws.L[0].I == 1) {
+		c.Rep.Disagreement(Disagreement{Kind: "corr", Name: "corr:C20.blank_result_witness", Input: "window 2 rows, follow; results (1, 3 lines), (2 | 1, no lines)", Impl: wt.String(), Expect: ws.String()})
 	}
 }
 
